@@ -8,6 +8,7 @@ alone on a fresh twin world; Q2 quiescence (no __wrapped__/__signature__ lost,
 guard empty, a solo retrieval afterwards returns the baseline).
 """
 
+import os
 import inspect
 import hashlib
 
@@ -19,7 +20,7 @@ PROP = 'C17'
 # selftest: also prove determinism of the rarer modes (always pre-history, always fine yield points)
 SELFTEST_VARIANTS = {'sched': [dict(prehistory=8, fine=4), dict(extra_yield=12, extra_yield_kinds=[2, 3])]}
 
-TEMPLATES = ['wraps', 'wraps_annot', 'sigattr', 'fwd', 'meth', 'mod', 'deco', 'asforged', 'comb', 'instdep', 'chain']
+TEMPLATES = ['wraps', 'wraps_annot', 'sigattr', 'fwd', 'meth', 'mod', 'deco', 'asforged', 'comb', 'instdep', 'chain', 'deep']
 
 ENTRIES = ['sigtools.signature', 'inspect.signature', 'sigtools.signature(auto=False)', 'signatures.signature']
 
@@ -508,15 +509,34 @@ class C17Sched(object):
         elif npre or cold:
             strategy = [1, 4][ch.draw(2, 'prehistory-strategy')]
         else:
-            strategy = ch.weighted(cfg.get('strategy_weights', [3, 3, 2, 2, 3]), 'strategy')
+            strategy = ch.weighted(cfg.get('strategy_weights', [3, 3, 2, 2, 3, 3]), 'strategy')
+        sweep = None
+        if strategy == 5:
+            # sweep: two threads, one call each; every step at which thread 0's solo pass touched
+            # shared state (world or process-wide) is tried, each as the single pre-emption of an
+            # execution of its own (thread 0 parked there, thread 1 runs through, thread 0 resumes)
+            nthreads = 2
+            programs = [programs[0][:1], programs[1][:1]]
+            npre = 0
+            brim = None
         first = ch.draw(nthreads, 'first-thread')
         warm_own = bool(npre) and ch.chance(1, 2, 'warm-own-subjects')
         if brim:
             warm_own = brim['reader_warm']
             first = 0
-        solo = [[expected_outcome(spec, e, l, inspect_lines, need_wp=(strategy == 1), cfg=cfg, fine=fine,
+        solo = [[expected_outcome(spec, e, l, inspect_lines, need_wp=(strategy in (1, 5)), cfg=cfg, fine=fine,
                                   warm=(warm_own and ti == 0), cold=cold) for e, l in prog]
                 for ti, prog in enumerate(programs)]
+        for ti in range(nthreads):
+            if sum(r[1] for r in solo[ti]) == 0:
+                # this thread's calls never enter sigtools code (plain inspect.signature on an object
+                # sigtools has nothing to do with): nothing could be interleaved; ask through
+                # sigtools.signature instead
+                programs[ti] = [('sigtools.signature', l) for _e, l in programs[ti]]
+                solo[ti] = [expected_outcome(spec, e, l, inspect_lines, need_wp=(strategy in (1, 5)), cfg=cfg,
+                                             fine=fine, warm=(warm_own and ti == 0), cold=cold)
+                            for e, l in programs[ti]]
+                res.counters['programs_redirected_to_sigtools_signature'] += 1
         expected = [[r[0] for r in t] for t in solo]
         solo_len = [sum(r[1] for r in t) for t in solo]
         write_points = []
@@ -586,11 +606,22 @@ class C17Sched(object):
             policy = RandomWalk(ch, maxgap, first)
             points = maxgap
             sname = 'walk'
-        else:
-            one_in = [1, 3, 10, 30][ch.draw(4, 'access-one-in')]
+        elif strategy == 4:
+            one_in = [1, 2, 3, 6, 10, 30][ch.draw(6, 'access-one-in')]
             policy = AccessWalk(ch, access_line_map(), one_in, first)
             points = one_in
             sname = 'access'
+        else:
+            cand = sorted(set(write_points[0]) | set(sut_write_points[0]))
+            if len(cand) > 24:
+                # too many to try them all: an evenly spaced selection starting at a drawn phase
+                step_ = len(cand) / 24.0
+                ph = ch.draw(max(1, int(step_)), 'sweep-phase')
+                cand = [cand[min(len(cand) - 1, int(i * step_) + ph)] for i in range(24)]
+            sweep = [(st, off) for st in cand for off in (0, 1)] or [(1, 0)]
+            policy = None
+            points = len(sweep)
+            sname = 'sweep'
         res.counters['strategy:' + sname] += 1
         res.counters['threads:%d' % nthreads] += 1
         if npre and not brim:
@@ -604,109 +635,127 @@ class C17Sched(object):
             res.counters['runs_with_prehistory'] += 1
             res.counters['prehistory_retrievals'] += npre
 
-        w = worlds.build(spec)
-        try:
-            # stable names are assigned before anything is retrieved, exactly as for the twin
-            objects = snapshot.closure(w)
-            if warm_own:
-                # the process has looked at these very objects before: thread 0's subjects are
-                # retrieved once, sequentially, before the race (hit paths of whatever is cached)
-                for entry, label in programs[0]:
-                    try:
-                        call_entry('sigtools.signature', w.subject(label))
-                    except Exception:
-                        pass
-                res.counters['runs_with_own_subjects_retrieved_before'] += 1
-            if brim:
-                res.counters['brim_fill_retrievals'] += fill_to_brim()
-            snap = snapshot.Snapshot(objects)
-            names = snap.names()
-            fp0 = world_fp(snap, objects)
-            outcomes = [[None] * len(p) for p in programs]
-            overlap = [0]
-            modified_switch = [0]
-            nsw = [0]
-
-            def make_prog(t):
-                def body(s, i):
-                    for c, (entry, label) in enumerate(programs[t]):
-                        s.in_call[i] = True
-                        outcomes[t][c] = run_call(entry, w, label, names)
-                        s.in_call[i] = False
-                return body
-
-            def on_switch(s, cur, nxt, code, line):
-                nsw[0] += 1
-                if s.in_call[cur] and (s.in_call[nxt] or not s.started[nxt]):
-                    overlap[0] += 1
-                if nsw[0] <= 6 and world_fp(snap, objects) != fp0:
-                    modified_switch[0] += 1
-
-            s = sched.Scheduler([make_prog(t) for t in range(nthreads)], policy,
-                                step_cap=cfg.get('step_cap', 400000), inspect_lines=inspect_lines,
-                                on_switch=on_switch, fine=fine)
+        def execute(policy):
+            """One multi-thread execution on a fresh world under `policy`; True if it violated."""
+            w = worlds.build(spec)
             try:
-                s.run(timeout=cfg.get('sched_timeout', 120))
-            except sched.Deadlock as e:
-                raise HarnessError(str(e))
-            if s.errors:
-                raise HarnessError('thread program crashed: {0}'.format(s.errors))
-            res.evals += 1
-            res.steps += s.step
-            if s.capped:
-                res.capped += 1
-            switches = [t for t in s.trace if t[3] != '<finished>']
-            res.counters['switches'] += len(switches)
-            if overlap[0]:
-                res.counters['probe:switch_between_two_overlapping_retrievals'] += 1
-            if modified_switch[0]:
-                res.counters['probe:switch_while_shared_state_differs_from_initial'] += 1
-            sig = tuple((a, cn, ln, b) for (_st, a, b, cn, ln) in switches)
-            res.key(tpl, tuple(tuple(p) for p in programs), sig, nontrivial=bool(overlap[0]))
-            for (_st, a, b, cn, ln) in switches[:4]:
-                res.counters['stopped_in:' + cn] += 1   # where the first pre-empted threads were parked
-            res.event('trace', s.trace, snapshot.freeze(outcomes))
-            trace_txt = ['step {0}: T{1}->T{2} at {3}:{4}'.format(*t) for t in s.trace[:12]]
-            res.sample = dict(template=tpl, params=spec['params'], programs=programs, strategy=sname,
-                              schedule=trace_txt, steps=s.step,
-                              outcomes=[[(o[1]['str'] if o and o[0] == 'ok' else o) for o in t] for t in outcomes])
+                # stable names are assigned before anything is retrieved, exactly as for the twin
+                objects = snapshot.closure(w)
+                if warm_own:
+                    # the process has looked at these very objects before: thread 0's subjects are
+                    # retrieved once, sequentially, before the race (hit paths of whatever is cached)
+                    for entry, label in programs[0]:
+                        try:
+                            call_entry('sigtools.signature', w.subject(label))
+                        except Exception:
+                            pass
+                    res.counters['runs_with_own_subjects_retrieved_before'] += 1
+                if brim:
+                    res.counters['brim_fill_retrievals'] += fill_to_brim()
+                snap = snapshot.Snapshot(objects)
+                names = snap.names()
+                fp0 = world_fp(snap, objects)
+                outcomes = [[None] * len(p) for p in programs]
+                overlap = [0]
+                modified_switch = [0]
+                nsw = [0]
 
-            def viol(clause, symptom, detail):
-                res.violations.append(Violation(PROP, clause, tpl, symptom, detail=detail,
-                                                extra=dict(programs=programs, strategy=sname, schedule=trace_txt)))
-            # Q1
-            for t in range(nthreads):
-                for c, (entry, label) in enumerate(programs[t]):
-                    got, exp = outcomes[t][c], expected[t][c]
-                    if snapshot.freeze(got) != snapshot.freeze(exp):
-                        kind = 'exception' if got and got[0] == 'exc' else (
-                            'signature' if got and got[0] == 'ok' and exp[0] == 'ok' and got[1]['str'] != exp[1]['str']
-                            else ('instance' if got and exp and got[:2] == exp[:2] else 'provenance'))
-                        viol('Q1', '{0}: wrong {1} under interleaving'.format(entry, kind),
-                             'T{0} call {1} {2}({3}): alone={4} interleaved={5}; schedule={6}'.format(
-                                 t, c, entry, label, _short(exp), _short(got), trace_txt))
-                        return res
-            # Q2
-            d = snap.diff()
-            lost = [x for x in d if x[2] == 'removed' and x[1] in ('__wrapped__', '__signature__')]
-            if lost:
-                viol('Q2', 'attribute lost at quiescence: ' + ','.join(sorted(set(x[1] for x in lost))),
-                     'diff={0}; schedule={1}'.format(d[:6], trace_txt))
-                return res
-            if d:
-                res.counters['quiescent_diff_other_than_lost_attribute'] += 1
-            gp = snapshot.guard_probe(objects)
-            if gp:
-                viol('Q2', 'recursion guard stuck at quiescence', repr(gp[:4]))
-                return res
-            entry, label = programs[0][0]
-            after = run_call(entry, w, label, names)
-            if snapshot.freeze(after) != snapshot.freeze(expected[0][0]):
-                viol('Q2', 'solo retrieval after quiescence differs from baseline',
-                     '{0}({1}): alone={2} after={3}; schedule={4}'.format(
-                         entry, label, _short(expected[0][0]), _short(after), trace_txt))
-        finally:
-            w.teardown()
+                def make_prog(t):
+                    def body(s, i):
+                        for c, (entry, label) in enumerate(programs[t]):
+                            s.in_call[i] = True
+                            outcomes[t][c] = run_call(entry, w, label, names)
+                            s.in_call[i] = False
+                    return body
+
+                def on_switch(s, cur, nxt, code, line):
+                    nsw[0] += 1
+                    if s.in_call[cur] and (s.in_call[nxt] or not s.started[nxt]):
+                        overlap[0] += 1
+                    if nsw[0] <= 6 and world_fp(snap, objects) != fp0:
+                        modified_switch[0] += 1
+
+                s = sched.Scheduler([make_prog(t) for t in range(nthreads)], policy,
+                                    step_cap=cfg.get('step_cap', 400000), inspect_lines=inspect_lines,
+                                    on_switch=on_switch, fine=fine)
+                try:
+                    s.run(timeout=cfg.get('sched_timeout', 120))
+                except sched.Deadlock as e:
+                    raise HarnessError(str(e))
+                if s.errors:
+                    raise HarnessError('thread program crashed: {0}'.format(s.errors))
+                res.evals += 1
+                res.steps += s.step
+                if s.capped:
+                    res.capped += 1
+                switches = [t for t in s.trace if t[3] != '<finished>']
+                res.counters['switches'] += len(switches)
+                if overlap[0]:
+                    res.counters['probe:switch_between_two_overlapping_retrievals'] += 1
+                if modified_switch[0]:
+                    res.counters['probe:switch_while_shared_state_differs_from_initial'] += 1
+                sig = tuple((a, cn, ln, b) for (_st, a, b, cn, ln) in switches)
+                res.key(tpl, tuple(tuple(p) for p in programs), sig, nontrivial=bool(overlap[0]))
+                for (_st, a, b, cn, ln) in switches[:4]:
+                    res.counters['stopped_in:' + cn] += 1   # where the first pre-empted threads were parked
+                res.event('trace', s.trace, snapshot.freeze(outcomes))
+                trace_txt = ['step {0}: T{1}->T{2} at {3}:{4}'.format(*t) for t in s.trace[:12]]
+                res.sample = dict(template=tpl, params=spec['params'], programs=programs, strategy=sname,
+                                  schedule=trace_txt, steps=s.step,
+                                  outcomes=[[(o[1]['str'] if o and o[0] == 'ok' else o) for o in t] for t in outcomes])
+
+                def viol(clause, symptom, detail):
+                    res.violations.append(Violation(PROP, clause, tpl, symptom, detail=detail,
+                                                    extra=dict(programs=programs, strategy=sname, schedule=trace_txt)))
+                # Q1
+                for t in range(nthreads):
+                    for c, (entry, label) in enumerate(programs[t]):
+                        got, exp = outcomes[t][c], expected[t][c]
+                        if snapshot.freeze(got) != snapshot.freeze(exp):
+                            kind = 'exception' if got and got[0] == 'exc' else (
+                                'signature' if got and got[0] == 'ok' and exp[0] == 'ok' and got[1]['str'] != exp[1]['str']
+                                else ('instance' if got and exp and got[:2] == exp[:2] else 'provenance'))
+                            viol('Q1', '{0}: wrong {1} under interleaving'.format(entry, kind),
+                                 'T{0} call {1} {2}({3}): alone={4} interleaved={5}; schedule={6}'.format(
+                                     t, c, entry, label, _short(exp), _short(got), trace_txt))
+                            return True
+                # Q2
+                d = snap.diff()
+                lost = [x for x in d if x[2] == 'removed' and x[1] in ('__wrapped__', '__signature__')]
+                if lost:
+                    viol('Q2', 'attribute lost at quiescence: ' + ','.join(sorted(set(x[1] for x in lost))),
+                         'diff={0}; schedule={1}'.format(d[:6], trace_txt))
+                    return True
+                if d:
+                    res.counters['quiescent_diff_other_than_lost_attribute'] += 1
+                gp = snapshot.guard_probe(objects)
+                if gp:
+                    viol('Q2', 'recursion guard stuck at quiescence', repr(gp[:4]))
+                    return True
+                entry, label = programs[0][0]
+                after = run_call(entry, w, label, names)
+                if snapshot.freeze(after) != snapshot.freeze(expected[0][0]):
+                    viol('Q2', 'solo retrieval after quiescence differs from baseline',
+                         '{0}({1}): alone={2} after={3}; schedule={4}'.format(
+                             entry, label, _short(expected[0][0]), _short(after), trace_txt))
+            finally:
+                w.teardown()
+            return False
+
+        if sweep is None:
+            execute(policy)
+        else:
+            # every candidate point of thread 0, each as the single pre-emption of its own
+            # execution on a fresh world (process state put back in between)
+            from sim import sutstate as _sut1
+            for n_exec, (st, off) in enumerate(sweep):
+                if n_exec:
+                    _sut1.restore()
+                    if cold:
+                        _sut1.restore_import()
+                if execute(LocalPreempt(0, [(0, max(1, st + off), 0)], 0)):
+                    break
+            res.counters['sweep_executions'] += n_exec + 1
         return res
 
     def describe(self, choices, cfg):
@@ -735,7 +784,7 @@ def check(tier, budget=None, minimise=True):
     from sim import runner
     t0 = time.time()
     if budget is None:
-        budget = 900.0 if tier == 'thorough' else 45.0
+        budget = 900.0 if tier == 'thorough' else 75.0
     drivers, cfgs = setup(tier)
     runner.warmup()
     t = runner.run_batch(drivers['sched'], cfgs['sched'], tier, budget_s=budget, label='sched')
